@@ -37,6 +37,13 @@ P = "param.parameterized."
 
 def _run(ctx, qual, env, body, hook=None, glob=None):
     f = ctx.repo.func(qual)
+    user_hook = hook
+
+    def hook(fn, args, kwargs):
+        # logging is not part of the state the model is about
+        if fn in ("get_logger", "logging.getLogger") or fn.split(".")[-1] in ("debug", "info", "warning", "error", "log", "param_log", "verbose", "message"):
+            return Obj("logger")
+        return user_hook(fn, args, kwargs) if user_hook else NotImplemented
     it = Interp(ctx.hier, call_hook=hook, globals=glob or {}, inline_module_functions=True)
     it.yield_hook = body
     outs = it.run_all(f, env)
